@@ -156,7 +156,11 @@ class Ctx:
 
     def report(self):
         return {"property": self.prop, "tier": self.tier, "seed": self.seed, "spec": self.spec,
-                "evaluations": self.evaluations, "nontrivial": sorted(self.nontrivial),
+                "evaluations": self.evaluations,
+                # shards work on disjoint case ranges (keys contain the case index / partition), so big sets are
+                # reported by their size only and summed by the driver
+                "nontrivial": sorted(self.nontrivial) if len(self.nontrivial) <= 50000 else [],
+                "nontrivial_count": len(self.nontrivial),
                 "counters": dict(self.counters), "monitors": dict(self.monitors),
                 "discards": dict(self.discards), "samples": self.samples,
                 "violations": self.violations, "n_violations": self.n_violations,
